@@ -45,7 +45,14 @@ type tree struct {
 	Elem *tree // ptr / iface payload
 }
 
-func toTree(v reflect.Value) *tree {
+// toTree renders v; values nested deeper than 40 levels (only cyclic values are: an
+// accepted overlapping mapping set can make a predecessor's map contain itself) are cut.
+func toTree(v reflect.Value) *tree { return toTreeD(v, 0) }
+
+func toTreeD(v reflect.Value, depth int) *tree {
+	if depth > 40 {
+		return &tree{K: "other", T: "cut", V: "deeper than 40 levels"}
+	}
 	if !v.IsValid() {
 		return &tree{K: "iface", Nil: true}
 	}
@@ -59,14 +66,14 @@ func toTree(v reflect.Value) *tree {
 	case reflect.Struct:
 		t := &tree{K: "struct", T: v.Type().String(), Kids: map[string]*tree{}}
 		for i := 0; i < v.NumField(); i++ {
-			t.Kids[v.Type().Field(i).Name] = toTree(v.Field(i))
+			t.Kids[v.Type().Field(i).Name] = toTreeD(v.Field(i), depth+1)
 		}
 		return t
 	case reflect.Ptr:
 		if v.IsNil() {
 			return &tree{K: "ptr", Nil: true}
 		}
-		return &tree{K: "ptr", Elem: toTree(v.Elem())}
+		return &tree{K: "ptr", Elem: toTreeD(v.Elem(), depth+1)}
 	case reflect.Map:
 		if v.IsNil() {
 			return &tree{K: "map", Nil: true}
@@ -74,7 +81,7 @@ func toTree(v reflect.Value) *tree {
 		t := &tree{K: "map", Kids: map[string]*tree{}}
 		it := v.MapRange()
 		for it.Next() {
-			t.Kids[fmt.Sprint(it.Key().Interface())] = toTree(it.Value())
+			t.Kids[fmt.Sprint(it.Key().Interface())] = toTreeD(it.Value(), depth+1)
 		}
 		return t
 	case reflect.Interface:
@@ -82,7 +89,7 @@ func toTree(v reflect.Value) *tree {
 			return &tree{K: "iface", Nil: true}
 		}
 		e := v.Elem()
-		return &tree{K: "iface", T: e.Type().String(), Elem: toTree(e)}
+		return &tree{K: "iface", T: e.Type().String(), Elem: toTreeD(e, depth+1)}
 	default:
 		return &tree{K: "other", T: v.Type().String(), V: fmt.Sprintf("%v", v.Interface())}
 	}
